@@ -501,6 +501,9 @@ class FnTranslator:
             import py2lean_heap
             HEAP_TP[:] = [self.heap.get('key', 'κ'), self.heap.get('val', 'ν')]
             fdef = py2lean_heap.prepass(fdef, getattr(fdef, '_module_tree', None), spec['cls'], spec, hnotes)
+        self.ext = spec.get('ext') or (spec.get('cls') or {}).get('ext')     # --- extension module (spec `ext`)
+        if self.ext:
+            fdef = importlib.import_module(self.ext).prepass(fdef, tree, spec, hnotes)
         fdef = py2lean_prepass.run(fdef, getattr(fdef, '_module_tree', None), spec, self.prepass)
         if hnotes:
             self.prepass['prepass'] = sorted(set(self.prepass.get('prepass', [])) | hnotes)
@@ -593,6 +596,7 @@ class FnTranslator:
             if self.heap and (self.cls or {}).get('backend'):
                 # heap mode: the operations of the backend attribute are a parameter (a type-class instance)
                 b += '[PyHeap.Backend %s %s %s] ' % (HEAP_TP[0], HEAP_TP[1], self.cls['backend']['type'])
+            b += ''.join('[%s] ' % c for c in self.spec.get('classes', ()))     # spec `classes`: extra instance binders
         return b
 
     @property
@@ -1639,7 +1643,8 @@ class FnTranslator:
         stored back into `g` itself (the old container dies in the same statement)"""
         if self.cls is None or not self.cls_mut or self._scalar(t):
             return
-        for n in ast.walk(value):
+        # (spec `ext`: the extension module prunes sub-expressions whose value is a NEW container of scalars)
+        for n in (importlib.import_module(self.ext).alias_nodes(self, value) if self.ext else ast.walk(value)):
             a = self.state_attr(n) if isinstance(n, ast.Attribute) else None
             if a is not None and not self._scalar(self.cls_state[a]) and a != tgt_attr:
                 raise Unsupported(node, 'possible alias of the mutable attribute %s' % a)
@@ -2507,6 +2512,8 @@ class ExprTr:
 
     def _call(self, node: ast.Call, expected):
         fn = self.fn
+        if fn.ext and isinstance(node.func, ast.Name) and node.func.id.startswith('%'):
+            return importlib.import_module(fn.ext).translate_op(self, node, expected)    # spec-declared operation
         if self.env is None and fn.heap and (fn._counter_next(node) is not None or fn._backend_call(node)):
             # heap mode: `next(self.<counter>)` / the backend's pop: translated at statement level only
             if not self.infer_only:
@@ -2885,6 +2892,15 @@ def class_state_text(cls) -> str:
     return '\n'.join(out) + '\n'
 
 
+def _rt_import(specs):
+    """the runtime module a generated file imports: PyRt, PyHeap (heap mode), or the one of an extension module"""
+    for sp in specs:
+        ext = sp.get('ext') or (sp.get('cls') or {}).get('ext')
+        if ext:
+            return importlib.import_module(ext).RT_IMPORT
+    return 'PyHeap' if any((sp.get('cls') or {}).get('heap') for sp in specs) else 'PyRt'
+
+
 def translate_source(src: str, specs: list, module_name: str, rel: str):
     """translate the functions named by `specs` out of the module source text `src`"""
     tree = ast.parse(src)
@@ -2928,7 +2944,7 @@ def translate_source(src: str, specs: list, module_name: str, rel: str):
     out = ('/- GENERATED by harness/py2lean.py from %s - do not edit.\n'
            '   Shallow CPS translation of the current source text (rules: notes/SRCTIE.md):\n%s\n-/\n'
            'import BoltonsVerif.%s\n\nnamespace Src.%s\n\n%s\nend Src.%s\n' % (
-               rel, '\n'.join(head), 'PyHeap' if any((sp.get('cls') or {}).get('heap') for sp in specs) else 'PyRt',
+               rel, '\n'.join(head), _rt_import(specs),
                short, '\n'.join(parts), short))
     return out, infos
 
